@@ -203,3 +203,58 @@ func trWriteToShape(pkg *packages.Package, name string) (string, error) {
 	}
 	return fmt.Sprintf("Definition %s_shape : list wkind :=\n  [%s].\n\n", coqName(name), strings.Join(shape, "; ")), nil
 }
+
+// trSyscallProtShape: the order of protection passes and copies of a writer that changes page protections through
+// syscall.Syscall(syscall.SYS_MPROTECT, page, size, PROT) directly (memory.writeTo, the fallback used when
+// mprotect(RWX) is refused). Statements are visited in source order, loops included; every protection must be constant.
+func trSyscallProtShape(pkg *packages.Package, name string) (string, error) {
+	var fd *ast.FuncDecl
+	for _, f := range pkg.Syntax {
+		for _, d := range f.Decls {
+			if x, ok := d.(*ast.FuncDecl); ok && x.Recv == nil && x.Name.Name == name {
+				fd = x
+			}
+		}
+	}
+	if fd == nil {
+		return "", fmt.Errorf("%s: not found", name)
+	}
+	var shape []string
+	var ferr error
+	ast.Inspect(fd.Body, func(n ast.Node) bool {
+		c, ok := n.(*ast.CallExpr)
+		if !ok {
+			return true
+		}
+		if id, ok := c.Fun.(*ast.Ident); ok && id.Name == "copy" && len(c.Args) == 2 {
+			shape = append(shape, "SCopy")
+			return true
+		}
+		sel, ok := c.Fun.(*ast.SelectorExpr)
+		if !ok || sel.Sel.Name != "Syscall" || len(c.Args) != 4 {
+			return true
+		}
+		nr := pkg.TypesInfo.Types[c.Args[0]]
+		if nr.Value == nil {
+			return true
+		}
+		if a0, ok := c.Args[0].(*ast.SelectorExpr); !ok || a0.Sel.Name != "SYS_MPROTECT" {
+			return true
+		}
+		tv := pkg.TypesInfo.Types[c.Args[3]]
+		if tv.Value == nil {
+			ferr = fmt.Errorf("%s: non-constant protection", name)
+			return false
+		}
+		s, _ := zlit(tv.Value)
+		shape = append(shape, "SProt "+s)
+		return true
+	})
+	if ferr != nil {
+		return "", ferr
+	}
+	if len(shape) == 0 {
+		return "", fmt.Errorf("%s: no mprotect / copy step found", name)
+	}
+	return fmt.Sprintf("Definition %s_fallback_shape : list wkind :=\n  [%s].\n\n", coqName(name), strings.Join(shape, "; ")), nil
+}
